@@ -233,3 +233,66 @@ Proof.
   - rewrite E. destruct (run_op fixed fuel o h) as [u h'| |]; [apply IH; assumption|reflexivity|].
     exfalso. apply (Hnf k). reflexivity.
 Qed.
+
+(* ---- (2) with events there is no fuel bound: a key handler that sends the key again recurses for ever,
+        in the model as in the library (stack exhaustion); every fuel runs out ---- *)
+Definition loop_handler : handler := mkH 0 true 0 false [OKey].
+Definition loop_script : list op := [OBind 1 0 true 0 false [OKey]; OKey].
+
+Definition loop_heap (h : heap) : Prop :=
+  exists c, PM.find 1%positive (wins h) = Some c /\ w_visible c = true /\ w_first c = None /\ w_focus c = None /\
+            w_hs c = [loop_handler].
+
+Lemma loop_heap_log : forall h o, loop_heap h ->
+  loop_heap (mkHeap (wins h) (reqs h) (rx h) (nextw h) (nextq h) (dlog h) (uninit_seen h) (o :: tr h)).
+Proof. intros h o H. exact H. Qed.
+
+Lemma getw_find : forall a c h, PM.find a (wins h) = Some c -> getw a h = Ok c h.
+Proof. intros a c h H. unfold getw. rewrite H. reflexivity. Qed.
+Lemma loop_heap_ref : forall h c, PM.find 1%positive (wins h) = Some c -> w_visible c = true -> w_first c = None ->
+  w_focus c = None -> w_hs c = [loop_handler] ->
+  exists h', window_ref 1%positive h = Ok tt h' /\ loop_heap h'.
+Proof.
+  intros h c Hc Hv Hf Hfo Hhs. unfold window_ref, upd, bind. rewrite (getw_find _ c h Hc). unfold setw. rewrite Hc.
+  eexists. split; [reflexivity|]. exists (set_ref c (w_ref c + 1)). split; [cbn [wins]; apply PM.gss|]. cbn. auto.
+Qed.
+
+Lemma key_runs_out : forall fuel h, loop_heap h -> run_op fixed fuel OKey h = NoFuel.
+Proof.
+  induction fuel as [fuel IH] using lt_wf_ind. intros h (c & Hc & Hv & Hf & Hfo & Hhs).
+  destruct fuel as [|f1]; [reflexivity|]. rewrite run_op_F. unfold bind at 1. cbn [log_op].
+  set (h1 := mkHeap (wins h) (reqs h) (rx h) (nextw h) (nextq h) (dlog h) (uninit_seen h) (OKey :: tr h)).
+  assert (Hc1 : PM.find 1%positive (wins h1) = Some c) by exact Hc.
+  unfold bind at 1. unfold root_bound at 1.
+  assert (Em : PM.mem 1%positive (wins h1) = true) by (rewrite PM.mem_find, Hc1; reflexivity).
+  rewrite Em. unfold bind at 1.
+  assert (G : handle_key fixed f1 1%positive h1 = NoFuel); [|rewrite G; reflexivity].
+  destruct f1 as [|f2]; [reflexivity|]. rewrite handle_key_F. cbn [v_events_asis fixed].
+  unfold bind at 1. rewrite (getw_find _ c h1 Hc1). rewrite Hv. cbn [negb]. unfold bind at 1. cbn [log_op].
+  set (h2 := mkHeap (wins h1) (reqs h1) (rx h1) (nextw h1) (nextq h1) (dlog h1) (uninit_seen h1) (OFrameRef 1%positive :: tr h1)).
+  assert (Hc2 : PM.find 1%positive (wins h2) = Some c) by exact Hc.
+  destruct (loop_heap_ref h2 c Hc2 Hv Hf Hfo Hhs) as (h3 & Hr & (c3 & Hc3 & Hv3 & Hf3 & Hfo3 & Hhs3)).
+  unfold bind at 1. rewrite Hr.
+  unfold bind at 1. rewrite (getw_find _ c3 h3 Hc3). rewrite Hf3. unfold bind at 1. cbn [ret fst snd].
+  unfold bind at 1. rewrite (getw_find _ c3 h3 Hc3). rewrite Hfo3. unfold bind at 1. cbn [ret].
+  unfold bind at 1. rewrite (getw_find _ c3 h3 Hc3). rewrite Hhs3. unfold bind at 1.
+  assert (G : run_key_handlers fixed f2 1%positive [loop_handler] h3 = NoFuel); [|rewrite G; reflexivity].
+  destruct f2 as [|f3]; [reflexivity|]. rewrite run_key_handlers_F. unfold bind at 1. rewrite (getw_find _ c3 h3 Hc3).
+  rewrite Hhs3. cbn [h_key loop_handler existsb h_id Z.eqb orb andb h_actions h_ret].
+  unfold bind at 1.
+  assert (G : run_ops fixed f3 [OKey] h3 = NoFuel); [|rewrite G; reflexivity].
+  destruct f3 as [|f4]; [reflexivity|]. rewrite run_ops_F. unfold bind at 1.
+  rewrite (IH f4 ltac:(lia) h3); [reflexivity|]. exists c3. auto.
+Qed.
+
+Theorem no_fuel_bound_with_events : forall fuel, exists s, run_script fixed fuel loop_script = VNoFuel s.
+Proof.
+  intro fuel. unfold run_script, loop_script. cbn [run_script_from].
+  destruct fuel as [|f]; [exists O; reflexivity|].
+  destruct (run_op fixed (S f) (OBind 1 0 true 0 false [OKey]) (heap0 fixed)) as [u h1| |] eqn:E.
+  - assert (L : loop_heap h1).
+    { rewrite run_op_F in E. cbn in E. inversion E; subst h1. eexists. split; [cbn; reflexivity|]. cbn. auto. }
+    rewrite (key_runs_out (S f) h1 L). eauto.
+  - rewrite run_op_F in E. cbn in E. discriminate.
+  - eauto.
+Qed.
